@@ -1,4 +1,5 @@
 import CryoCat.Lemmas.C11
+import CryoCat.Lemmas.C11_Bytes
 /-! C11 — property theorems: a 3-D array written by `cryomap.write` and read back by `cryomap.read`
 keeps its `(x,y,z)` shape and voxels (float64 narrowed to float32); on disk x varies fastest and the
 header `nx,ny,nz` is the array shape; `em2mrc`/`mrc2em` keep (or negate) every voxel and refuse to
@@ -19,9 +20,12 @@ theorem write_axes_documented :
 /-- `read` transposes files with `(2,1,0)` under the `transpose` flag -/
 theorem read_axes_documented : Gen.C11.readAxes = [2, 1, 0] ∧ Gen.C11.readTransposeGuard = "transpose" := by decide
 
-/-- order of the steps of `write` -/
+/-- order of the steps of `write`; `byteorder` = big-endian data (what `read` returns for a big-endian MRC
+file) are converted to little-endian before anything is handed to `mrcfile`/`emfile`, so the value-level
+model below is independent of the byte order of the caller's array and every written file is
+little-endian (`writeBytes`) -/
 theorem write_steps_documented :
-    Gen.C11.writeSteps = ["astype(data_type)", "transpose", "narrow", "dispatch"] ∧ Gen.C11.writePassesOverwrite = true := by decide
+    Gen.C11.writeSteps = ["astype(data_type)", "byteorder", "transpose", "narrow", "dispatch"] ∧ Gen.C11.writePassesOverwrite = true := by decide
 
 /-- the only implicit conversion is float64 → float32 -/
 theorem narrowing_documented :
@@ -72,6 +76,7 @@ statement; any edit other than a renaming needs the model to be looked at again 
 
 theorem write_body_documented : Gen.C11.writeBody =
     ["if data_type is not None:\n    _p0 = _p0.astype(data_type)",
+     "if _p0.dtype.byteorder == '>':\n    _p0 = _p0.astype(_p0.dtype.newbyteorder('<'))",
      "if transpose and _p0.ndim == 3:\n    _p0 = _p0.transpose(2, 1, 0)",
      "if _p0.dtype == np.float64:\n    _p0 = _p0.astype(np.float32)",
      "if _p1.endswith('.mrc') or _p1.endswith('.rec'):\n    mrcfile.write(name=_p1, data=_p0, overwrite=overwrite)\nelif _p1.endswith('.em'):\n    emfile.write(_p1, data=_p0, overwrite=overwrite)\nelse:\n    raise ValueError"] := rfl
@@ -578,6 +583,207 @@ theorem checkConverted_sound [DecidableEq α] (cast : DType → α → α) (neg 
   obtain ⟨h1, h2, h3, h4, _, h6⟩ := checkSameFileVoxels_sound _ fin fout h.1
   exact ⟨h1, h2, h3, h4, h.2, h6⟩
 
+/-! ### the container formats down to the bytes (`Model/C11_Bytes`)
+
+`Raw` = what the bytes say (container, byte order, element type, `nx ny nz`, one bit pattern per voxel);
+`encodeMrc`/`encodeEm` lay it out (1024- / 512-byte header, payload x fastest, little- or big-endian),
+`decodeMrc`/`decodeEm` read bytes back and refuse everything else.  The driver runs `decodeByContent` on
+the bytes of every file the real code wrote and compares `encode (write ..)` with them. -/
+
+/-- **decode ∘ encode = id (MRC)**: every `Raw` that `encodeMrc` can represent (`Raw.WF`: the element type has an
+MRC mode, sizes below 2³¹, one word per voxel, words within their width), in either byte order -/
+theorem decodeMrc_encodeMrc (r : Raw) (hk : r.kind = .mrc) (h : r.WF) : decodeMrc (encodeMrc r).toArray = some r := by
+  obtain ⟨kind, be, code, nx, ny, nz, words⟩ := r
+  simp only at hk; subst hk
+  obtain ⟨hc, hx, hy, hz, hlen, hw⟩ := h
+  exact decodeMrc_encodeMrc_aux be code nx ny nz words hc hx hy hz hlen hw
+
+/-- **decode ∘ encode = id (EM)** -/
+theorem decodeEm_encodeEm (r : Raw) (hk : r.kind = .em) (h : r.WF) : decodeEm (encodeEm r).toArray = some r := by
+  obtain ⟨kind, be, code, nx, ny, nz, words⟩ := r
+  simp only at hk; subst hk
+  obtain ⟨hc, hx, hy, hz, hlen, hw⟩ := h
+  exact decodeEm_encodeEm_aux be code nx ny nz words hc hx hy hz hlen hw
+
+theorem decode_encode (r : Raw) (h : r.WF) : decodeAs r.kind (encode r).toArray = some r := by
+  cases hk : r.kind with
+  | mrc => simp only [decodeAs, encode, hk]; exact decodeMrc_encodeMrc r hk h
+  | em => simp only [decodeAs, encode, hk]; exact decodeEm_encodeEm r hk h
+
+/-- an EM file is never taken for an MRC file: there is no `'MAP '` at byte 208 of what `encodeEm` writes -/
+theorem decodeMrc_encodeEm (r : Raw) : decodeMrc (encodeEm r).toArray = none := by
+  unfold decodeMrc
+  split
+  · rfl
+  · have h208 : byteAt (encodeEm r).toArray 208 = 0 := by
+      rw [show encodeEm r = (List.range 512).map (emHdrByte r) ++ encodeWords r.bigEndian r.code.width r.words from rfl,
+        byteAt_hdr 512 _ _ 208 (by omega)]
+      simp [emHdrByte]
+    rw [if_pos]
+    rw [h208]; simp
+
+/-- an MRC file (`nx < 2²⁴`) is never taken for an EM file: its first four bytes are `nx`, so either the machine
+byte is unknown or the type code (byte 3) is 0 -/
+theorem decodeEm_encodeMrc (r : Raw) (hx : r.nx < 2 ^ 24) : decodeEm (encodeMrc r).toArray = none := by
+  have B : ∀ i, i < 1024 → byteAt (encodeMrc r).toArray i = mrcHdrByte r i := fun i hi => byteAt_hdr 1024 _ _ i hi
+  unfold decodeEm
+  split
+  · rfl
+  · rw [B 0 (by omega), B 3 (by omega)]
+    cases hbe : r.bigEndian with
+    | true =>
+      have : mrcHdrByte r 0 = 0 := by
+        simp only [mrcHdrByte, hbe, fieldByte, wordBytes, leBytes]
+        simp
+        have e : r.nx / 256 / 256 / 256 % 256 = 0 := by omega
+        rw [e]; rfl
+      simp [this, emMachine?]
+    | false =>
+      have : (mrcHdrByte r 3).toNat = 0 := by
+        simp only [mrcHdrByte, hbe, fieldByte, wordBytes, leBytes]
+        simp
+        omega
+      rw [this]
+      cases emMachine? (mrcHdrByte r 0) <;> simp [Code.ofEmType?]
+
+/-- **x fastest, at the byte level (MRC)**: the `width` bytes of voxel `(i,j,k)` start at byte
+`1024 + width * (i + nx*(j + ny*k))` and are its bit pattern in the file's byte order -/
+theorem encodeMrc_voxel_bytes (r : Raw) (i j k : Nat) (hi : i < r.nx) (hj : j < r.ny) (hk : k < r.nz)
+    (hlen : r.words.length = r.nx * r.ny * r.nz) :
+    ((encodeMrc r).drop (voxelByteOffset 1024 r.code.width r.nx r.ny i j k 0)).take r.code.width
+      = wordBytes r.bigEndian r.code.width (r.words[offsetXFastest r.nx r.ny i j k]'(by rw [hlen]; exact offset_lt hi hj hk)) := by
+  have hl : ((List.range 1024).map (mrcHdrByte r)).length = 1024 := by simp
+  have e : voxelByteOffset 1024 r.code.width r.nx r.ny i j k 0
+      = ((List.range 1024).map (mrcHdrByte r)).length + offsetXFastest r.nx r.ny i j k * r.code.width := by
+    rw [hl]; simp only [voxelByteOffset, Nat.add_zero]; rw [Nat.mul_comm]
+  rw [e]
+  show (List.drop _ ((List.range mrcHeaderSize).map (mrcHdrByte r) ++ _)).take _ = _
+  rw [show mrcHeaderSize = 1024 from rfl, List.drop_length_add_append]
+  exact encodeWords_chunk _ _ _ _ _
+
+/-- the same for EM (header of 512 bytes) -/
+theorem encodeEm_voxel_bytes (r : Raw) (i j k : Nat) (hi : i < r.nx) (hj : j < r.ny) (hk : k < r.nz)
+    (hlen : r.words.length = r.nx * r.ny * r.nz) :
+    ((encodeEm r).drop (voxelByteOffset 512 r.code.width r.nx r.ny i j k 0)).take r.code.width
+      = wordBytes r.bigEndian r.code.width (r.words[offsetXFastest r.nx r.ny i j k]'(by rw [hlen]; exact offset_lt hi hj hk)) := by
+  have hl : ((List.range 512).map (emHdrByte r)).length = 512 := by simp
+  have e : voxelByteOffset 512 r.code.width r.nx r.ny i j k 0
+      = ((List.range 512).map (emHdrByte r)).length + offsetXFastest r.nx r.ny i j k * r.code.width := by
+    rw [hl]; simp only [voxelByteOffset, Nat.add_zero]; rw [Nat.mul_comm]
+  rw [e]
+  show (List.drop _ ((List.range emHeaderSize).map (emHdrByte r) ++ _)).take _ = _
+  rw [show emHeaderSize = 512 from rfl, List.drop_length_add_append]
+  exact encodeWords_chunk _ _ _ _ _
+
+/-- the header of what `encodeMrc` writes: `nx ny nz mode` in bytes 0–15, `mapc mapr maps = 1 2 3`, `nsymbt = 0`,
+`'MAP '` and the machine stamp of the byte order (read back with `i32At`, the decoder's own accessor) -/
+theorem encodeMrc_header (r : Raw) (h : r.WF) (hk : r.kind = .mrc) :
+    let A := (encodeMrc r).toArray
+    i32At r.bigEndian A 0 = r.nx ∧ i32At r.bigEndian A 4 = r.ny ∧ i32At r.bigEndian A 8 = r.nz ∧
+    Code.ofMrcMode? (i32At r.bigEndian A 12) = some r.code ∧
+    mrcStamp? (byteAt A 212) (byteAt A 213) = some r.bigEndian ∧ A.size = 1024 + r.nx * r.ny * r.nz * r.code.width := by
+  have hd := decodeMrc_encodeMrc r hk h
+  obtain ⟨hc, hx, hy, hz, hlen, hw⟩ := h
+  intro A
+  have B : ∀ i, i < 1024 → byteAt A i = mrcHdrByte r i := fun i hi => byteAt_hdr 1024 _ _ i hi
+  have F : ∀ off v, v < 2 ^ 32 → off + 3 < 1024 → mrcHdrByte r off = fieldByte r.bigEndian off v off →
+      mrcHdrByte r (off + 1) = fieldByte r.bigEndian off v (off + 1) → mrcHdrByte r (off + 2) = fieldByte r.bigEndian off v (off + 2) →
+      mrcHdrByte r (off + 3) = fieldByte r.bigEndian off v (off + 3) → i32At r.bigEndian A off = v :=
+    fun off v hv ho h0 h1 h2 h3 => i32At_hdr r.bigEndian 1024 (mrcHdrByte r) _ off v hv ho h0 h1 h2 h3
+  refine ⟨F 0 r.nx (by omega) (by omega) (by simp [mrcHdrByte]) (by simp [mrcHdrByte]) (by simp [mrcHdrByte]) (by simp [mrcHdrByte]),
+    F 4 r.ny (by omega) (by omega) (by simp [mrcHdrByte]) (by simp [mrcHdrByte]) (by simp [mrcHdrByte]) (by simp [mrcHdrByte]),
+    F 8 r.nz (by omega) (by omega) (by simp [mrcHdrByte]) (by simp [mrcHdrByte]) (by simp [mrcHdrByte]) (by simp [mrcHdrByte]), ?_, ?_, ?_⟩
+  · rw [F 12 _ (mrcMode_lt r.code) (by omega) (by simp [mrcHdrByte]) (by simp [mrcHdrByte]) (by simp [mrcHdrByte]) (by simp [mrcHdrByte])]
+    rw [hk] at hc
+    exact mrcMode_roundtrip r.code hc
+  · rw [B 212 (by omega), B 213 (by omega)]; cases hb : r.bigEndian <;> simp [mrcHdrByte, mrcStamp?, hb]
+  · show (encodeMrc r).toArray.size = _
+    simp [encodeMrc, mrcHeaderSize, length_encodeWords, hlen]
+
+/-! #### `cryomap.write` / `cryomap.read` down to the bytes -/
+
+/-- every voxel of `f` is representable in the file's voxel type: its bit pattern has the width of the type and
+converts back to the voxel (for the driver's IEEE-754 / two's-complement conversions `Drv.toWord`/`ofWord`: the voxel
+is a float32 / int16 / int8 value; a fact about the values, so a hypothesis of the byte-level theorems) -/
+def Representable (toWord : DType → α → Nat) (ofWord : DType → Nat → α) (f : MapFile α) : Prop :=
+  ∀ v ∈ f.data.toList, ofWord f.dtype (toWord f.dtype v) = v ∧ toWord f.dtype v < 256 ^ f.dtype.code.width
+
+/-- a `MapFile` of the model, laid out as bytes and decoded again, is the same `MapFile`: for every file whose
+payload has `nx*ny*nz` representable voxels, sizes below 2³¹ and a voxel type its container can hold (MRC has no
+float64 mode; `write` never produces float64, `outDType_ne_f64`) -/
+theorem decode_encode_mapfile (toWord : DType → α → Nat) (ofWord : DType → Nat → α) (f : MapFile α)
+    (hrep : Representable toWord ofWord f)
+    (hWF : FileWF f) (hx : f.nx < 2 ^ 31) (hy : f.ny < 2 ^ 31) (hz : f.nz < 2 ^ 31) (hdt : f.dtype ≠ .f64) :
+    (decodeAs f.kind (encode (f.toRaw toWord)).toArray).bind (Raw.toMapFile? ofWord) = some f := by
+  have hraw : (f.toRaw toWord).WF := by
+    refine ⟨?_, hx, hy, hz, ?_, ?_⟩
+    · show (match f.kind with | .mrc => f.dtype.code.mrcMode? ≠ none | .em => f.dtype.code.emType? ≠ none)
+      cases f.kind <;> cases hd : f.dtype <;> simp_all [DType.code, Code.mrcMode?, Code.emType?]
+    · show (f.data.toList.map (toWord f.dtype)).length = f.nx * f.ny * f.nz
+      simpa [FileWF] using hWF
+    · intro x hx'
+      simp only [MapFile.toRaw, List.mem_map] at hx'
+      obtain ⟨v, hv, rfl⟩ := hx'
+      exact (hrep v hv).2
+  have := decode_encode (f.toRaw toWord) hraw
+  rw [show (f.toRaw toWord).kind = f.kind from rfl] at this
+  rw [this]
+  have hmap : (f.data.toList.map (toWord f.dtype)).map (ofWord f.dtype) = f.data.toList := by
+    rw [List.map_map]
+    conv => rhs; rw [← List.map_id f.data.toList]
+    exact List.map_congr_left (fun v hv => (hrep v hv).1)
+  obtain ⟨kind, nx, ny, nz, dtype, data⟩ := f
+  cases dtype <;>
+    simp_all [Raw.toMapFile?, MapFile.toRaw, DType.code, Code.dtype?]
+
+/-- **reading the bytes the model writes is reading the model's file**: the byte-level reader, given
+`encode (f.toRaw ..)` under a name whose reader matches the container, behaves as `read` on `f` -/
+theorem readBytes_encode (toWord : DType → α → Nat) (ofWord : DType → Nat → α) (cast : DType → α → α) (d : α)
+    (name' : Name) (f : MapFile α) (tr : Bool) (rdt : Option DType)
+    (hrep : Representable toWord ofWord f)
+    (hWF : FileWF f) (hx : f.nx < 2 ^ 31) (hy : f.ny < 2 ^ 31) (hz : f.nz < 2 ^ 31) (hdt : f.dtype ≠ .f64)
+    (hr : readKind name' = .ok f.kind) :
+    readBytes ofWord cast d name' (encode (f.toRaw toWord)).toArray tr rdt = read cast d name' f tr rdt := by
+  simp only [readBytes, hr, bind, Except.bind]
+  rw [decode_encode_mapfile toWord ofWord f hrep hWF hx hy hz hdt]
+
+/-- **the container-format hypothesis of `read_cross_format`, proved on the bytes**: the bytes `write` produced
+for an `.em` name, offered under a name the MRC reader takes (`.mrc`, `.rec`, `.st`, `.ali`, `.mrc.12` ..), are
+refused, and vice versa (`nx < 2²⁴`), whatever the options -/
+theorem readBytes_cross_format (toWord : DType → α → Nat) (ofWord : DType → Nat → α) (cast : DType → α → α) (d : α)
+    (name' : Name) (f : MapFile α) (kr : Kind) (tr : Bool) (rdt : Option DType)
+    (hr : readKind name' = .ok kr) (hkind : f.kind ≠ kr) (hx : f.nx < 2 ^ 24) :
+    readBytes ofWord cast d name' (encode (f.toRaw toWord)).toArray tr rdt = .error .badFormat := by
+  simp only [readBytes, hr, bind, Except.bind]
+  have : decodeAs kr (encode (f.toRaw toWord)).toArray = none := by
+    cases hk : f.kind <;> cases kr <;> simp_all [decodeAs, encode, MapFile.toRaw]
+    · exact decodeEm_encodeMrc _ hx
+    · exact decodeMrc_encodeEm _
+  rw [this]; rfl
+
+/-- **Round trip through the bytes** (`transpose=True` on both sides): what `writeBytes` lays out on disk for an array
+of sizes below 2³¹ whose written voxels are representable in the file's type, read by `readBytes` under any name whose
+reader matches the container, is the array (voxels converted by `convW`, then by the reader's `data_type`) —
+`read_write` with the file replaced by its bytes -/
+theorem readBytes_writeBytes (toWord : DType → α → Nat) (ofWord : DType → Nat → α) (cast : DType → α → α) (d : α)
+    (a : Arr α) (src : DType) (name name' : Name) (dataType rdt : Option DType) (k : Kind) (h : a.WF)
+    (hrep : Representable toWord ofWord (store k (outDType dataType src) ((transpose210 d a).map (convW cast dataType src))))
+    (h0 : a.d0 < 2 ^ 31) (h1 : a.d1 < 2 ^ 31) (h2 : a.d2 < 2 ^ 31)
+    (hwk : writeKind name = .ok k) (hr : readKind name' = .ok k) :
+    ∃ bs, writeBytes toWord cast d a src name true dataType = .ok bs ∧
+      readBytes ofWord cast d name' bs.toArray true rdt
+        = .ok (a.map (fun v => conv1 cast rdt (convW cast dataType src v)), rdt.getD (outDType dataType src)) := by
+  have hw : write cast d a src name true dataType
+      = .ok (store k (outDType dataType src) ((transpose210 d a).map (convW cast dataType src))) := by
+    rw [write_eq cast d a src name dataType h, hwk]; rfl
+  refine ⟨encode ((store k (outDType dataType src) ((transpose210 d a).map (convW cast dataType src))).toRaw toWord), ?_, ?_⟩
+  · simp only [writeBytes, hw]; rfl
+  · have hspec := write_spec cast d a src name dataType _ h hw
+    rw [readBytes_encode toWord ofWord cast d name' _ true rdt hrep hspec.1.2.2.2.1
+      (by rw [hspec.1.1]; exact h0) (by rw [hspec.1.2.1]; exact h1) (by rw [hspec.1.2.2.1]; exact h2)
+      (by rw [hspec.2.1]; exact outDType_ne_f64 dataType src) hr]
+    exact read_write cast d a src name name' dataType rdt _ k h hw hr rfl
+
 /-! ### non-vacuity: concrete non-cubic inputs meeting the hypotheses -/
 
 /-- a 2×3×4 array whose values encode their own index -/
@@ -616,5 +822,22 @@ example :
     ((convert em2mrcCfg (fun _ v => v) 0 (fun v => -v) fs "a.em".toList true true none).toOption.bind
         (fun fs' => fs'.lookup "a.mrc".toList)).map (fun g => g.data[0]?) = some (some 5) := by
   unfold FileWF; decide +kernel
+
+/-! #### bytes: the hypotheses of the byte-level theorems are satisfiable, and the refusals are real -/
+
+/-- a 1×2×1 int16 volume holding 5 and −1 (pattern `FFFF`) -/
+def demoRaw : Raw := ⟨.mrc, false, .i16, 1, 2, 1, [5, 65535]⟩
+example : demoRaw.WF := ⟨by simp [demoRaw, Code.mrcMode?], by decide, by decide, by decide, by decide, by decide⟩
+example : ({ demoRaw with kind := .em, bigEndian := true } : Raw).WF := ⟨by simp [demoRaw, Code.emType?], by decide, by decide, by decide, by decide, by decide⟩
+/-- float64 has no MRC mode: such a `Raw` is outside `Raw.WF` (the theorem does not speak about it) -/
+example : ¬ ({ demoRaw with code := .f64 } : Raw).WF := fun h => h.1 rfl
+example : (encodeMrc demoRaw).length = 1024 + 4 := by simp [encodeMrc, mrcHeaderSize, length_encodeWords, demoRaw, Code.width]
+example : wordBytes false 2 65535 = [255, 255] ∧ wordBytes true 4 258 = [0, 0, 1, 2] ∧ wordOf true [0, 0, 1, 2] = 258 := by decide
+/-- voxels as bytes (`α := UInt8`, every file type at least one byte wide): `Representable` holds for every file -/
+example (f : MapFile UInt8) : Representable (fun _ v => v.toNat) (fun _ w => UInt8.ofNat w) f := by
+  intro v _
+  refine ⟨by simp, ?_⟩
+  have : v.toNat < 256 := v.toNat_lt
+  cases f.dtype <;> simp [DType.code, Code.width] <;> omega
 
 end CryoCat.C11
